@@ -41,6 +41,8 @@ pub fn place_on_matrix_data(qr: &mut QRCode, structure_as_binarystring: &Compact
 
     // 0, 2, 4, 7, 9, .., N (skipping 6)
     for x in (0..6).chain(7..qr.size).rev().step_by(2) {
+        #[cfg(fast_qr_verif)]
+        crate::verif::point("pomd.col");
         let y_range = if rev {
             BiRange::Backwards((0..qr.size).rev())
         } else {
@@ -92,18 +94,26 @@ pub fn place_on_matrix(
     let mut best_mask = MASKS[0];
 
     let mut qr = default::create_matrix(version);
+    #[cfg(fast_qr_verif)]
+    crate::verif::point("pom.blank");
     place_on_matrix_data(&mut qr, structure_as_binarystring);
+    #[cfg(fast_qr_verif)]
+    crate::verif::point("pom.placed");
 
     let transpose = default::transpose(&qr);
 
     for mask in MASKS {
         let mut copy = qr.clone();
+        #[cfg(fast_qr_verif)]
+        crate::verif::point("pom.mask");
         let copy_transpose = transpose.clone();
 
         datamasking::mask(&mut copy, mask);
         let matrix_score = score::score(&copy, &copy_transpose);
         #[cfg(fast_qr_verif)]
         crate::verif::record_candidate(mask, matrix_score, &copy);
+        #[cfg(fast_qr_verif)]
+        crate::verif::point("pom.scored");
         if matrix_score < best_score {
             best_score = matrix_score;
             best_mask = mask;
@@ -113,8 +123,14 @@ pub fn place_on_matrix(
     best_mask = mask.unwrap_or(best_mask);
     *mask = Some(best_mask);
 
+    #[cfg(fast_qr_verif)]
+    crate::verif::point("pom.selected");
     default::create_matrix_format_info(&mut qr, quality, best_mask);
+    #[cfg(fast_qr_verif)]
+    crate::verif::point("pom.format");
     datamasking::mask(&mut qr, best_mask);
+    #[cfg(fast_qr_verif)]
+    crate::verif::point("pom.done");
 
     qr.mask = *mask;
     qr
@@ -129,10 +145,16 @@ pub fn create_matrix(
     mask: &mut Option<Mask>,
 ) -> QRCode {
     let data_codewords = encode::encode(input, ecl, mode, version);
+    #[cfg(fast_qr_verif)]
+    crate::verif::point("cm.encoded");
     let structure = polynomials::structure(data_codewords.get_data(), ecl, version);
+    #[cfg(fast_qr_verif)]
+    crate::verif::point("cm.structured");
 
     let max = version.max_bytes() * 8;
     let structure_binstring = CompactQR::from_array(&structure, max + version.missing_bits());
+    #[cfg(fast_qr_verif)]
+    crate::verif::point("cm.binstring");
 
     QRCode {
         mode: Some(mode),
